@@ -5,13 +5,15 @@ CONSTANTS
   MaxLoad = 1
   MaxGrains = 9
   MaxReActors = 3
-  MaxSharePeers = 3
+  MaxSharePeers = 2
   MaxShareActors = 2
   MaxChunk = 9
   NKinds = 5
   MaxDerive = 4
-  BigPeers = 3
-  SmallActors = 2
+  BigPeers = 2
+  SmallActors = 3
+  MaxSharePeers2 = 3
+  MaxShareActors2 = 1
   MaxOkb = 2
   Families = {"Actors", "Grains", "Reassign", "Share", "Chunk", "Derive"}
 CONSTRAINT Emit
